@@ -399,7 +399,7 @@ func process2String(obj string, mergeFrom *Document, mergeFromDocs []*Document, 
 		return nil, fmt.Errorf("%#v: %w", obj, ErrCircularRef)
 	}
 
-	if strings.HasPrefix(obj, `$"`) && strings.HasSuffix(obj, `"`) {
+	if len(obj) >= 3 && strings.HasPrefix(obj, `$"`) && strings.HasSuffix(obj, `"`) {
 		return process2StringInterp(obj, mergeFrom, mergeFromDocs, ec, depth)
 	}
 
